@@ -92,6 +92,14 @@ CLAIMED = {
          "lifts to Send/Receive for every script (any number and timing of EINTR); correspondence with 0-5 injected EINTR results per wait.", "5 C16",
          TB + "EINTR injected at the libc boundary by the virtual OS.",
          "Coq proof (poll retry loop, for all scripts) + correspondence with injected EINTR"),
+ "C14": ("proof", "Theorems for EVERY fault overlay and script: tcp/udp/acceptor_constructor_ledger and accept_ledger (success only if no set-up call failed; on failure the FIRST failing call's errno is "
+         "thrown as std::system_error, nothing is attempted after it, and what had been opened is closed exactly once), first_failure_is_thrown; silent_drop_refuted: the driver-side clause is false for AcceptorAsync / "
+         "SocketUdpAsync (witness, recorded as known finding). Correspondence + monitor: fault enumeration - every position of the system-call trace of a scenario set covering every public constructor and "
+         "operation failed in turn with each plausible errno (set-up calls through an overlay, scripted calls through the script; pairs sampled); compared with the model entry by entry; monitored on the "
+         "implementation: failure reported (exception / disconnect handler / failed future / exception out of Step), descriptor ledger (none leaked, none closed twice, none foreign), no crash under ASan+UBSan.", "5 C14",
+         TB + "Partial: the whole-scenario ledger and 'remains usable' are decided on the enumerated scenarios (model-checked against the implementation), the theorems cover the constructors and accept. "
+         "getaddrinfo/getnameinfo failures are exercised by C12's check. TLS set-up failures: C18.",
+         "Coq proof (constructor/accept ledger for all fault overlays) + exhaustive single-fault enumeration with model correspondence and descriptor ledger"),
 }
 
 checks = []
